@@ -1,18 +1,28 @@
 PROP = {
-    "kani_groups": ["hk_emit_min"],
+    "kani_groups": ["hk_emit_min", "hk_tlctxt"],
     "smt": [],
     "technique": "bounded model checking (Kani/CBMC) of the capture hooks as expanded by the real proc-macros, over all values of each primitive type",
     "functions": [
         "emit::__private::{CaptureWithDefault, CaptureAsDisplay, CaptureAsAnonDisplay, CaptureAsDebug, CaptureAsAnonDebug, CaptureAsValue, CaptureAsAnonValue, Optional, "
         "__PrivateCaptureHook, __PrivateOptionalCaptureHook, __PrivateMacroProps}, macros/src/{capture, optional, hook, props}.rs (expanded at harness build time)",
         "emit_core::value::{Value::{capture_display, from_display, capture_debug, from_debug, from_any, cast, by_ref}, FromValue for the primitives}, Event::erase",
+        "hk_tlctxt: emit::platform::thread_local_ctxt::{ThreadLocalValue::{from_value, to_value}, ThreadLocalCtxt::{new, open_root, open_push, enter, exit, with_current}, "
+        "ThreadLocalCtxtFrame::{get, for_each, clone}, current, swap} (the REAL thread-local context), emit_core::{Value::{to_shared, downcast_ref, to_borrowed_str}, OwnedValue::to_value, "
+        "Props::{get (default, through Arc), pull}, Str::to_shared, FromValue for i64/u64/bool/f64/&str}, emit::span::{TraceId, SpanId}::{to_value, from_value (typed path)}, std::sync::Arc::{new, clone, make_mut} (real)",
     ],
     "bounds": "every value of u8, i32, u64, i64, u128, i128 (thorough: i8, u16, i16, u32), bool, every f64 bit pattern, strings from {empty, x, U+00E9 y}; "
-              "capture modes default / as_value / optional (as_display / as_debug: the harness exists but does not finish, not registered); read paths: direct, type-erased event, borrowed value",
+              "capture modes default / as_value / optional (as_display / as_debug: the harness exists but does not finish, not registered); read paths: direct, type-erased event, borrowed value; hk_tlctxt (buffering in the real ThreadLocalCtxt): every i64, every u64, both bools, every f64 bit pattern, and the concrete strings '', 'e-acute y', 16 hex digits (lower / UPPER / all zero: looks like a span id), 32 hex digits (lower / UPPER: looks like a trace id); each pushed under key 'a' in two concrete shapes: ROOT (open_root on an untouched thread, entered on the same thread, map enumerated forwards) and MOVED (open_push shadowing an ambient i64 with the same key next to another ambient key, entered on the OTHER harness thread, map enumerated backwards); read back with Props::pull::<T> from the frame before enter, from with_current inside, from the frame after exit; plus a pushed value shadowing an ambient one of another type with the same text (1042 / '1042', true / 'true', both directions)",
     "outside": "serde/sval capture modes and 'any serializer sees what the original value would have produced' (third-party serializer stacks: value-bag bridging, "
                "sval_serde, serde_json, sval_json - not encodable within reach); error capture with source chains, owned/shared values and buffering in the "
-               "thread-local context (need std: Value drop glue does not fit, DESIGN.md section 3); number formatting inside display mode",
-    "stubs": ["<f64/i64/u64/i128/u128 as Display/Debug>::fmt -> assert-unreachable in the display/debug-mode harness (thorough tier; the value formatted there is a custom type; even so the harness did not finish in 15 min here: formatting a Value through value-bag's visitor is at the edge of what CBMC handles)"],
+               "thread-local context (need std: Value drop glue does not fit, DESIGN.md section 3); number formatting inside display mode; "
+               "UPDATE hk_tlctxt: buffering of numbers, booleans, strings and typed ids in the thread-local context IS now decided (see bounds); still outside there: structured values (sval/serde/seq), "
+               "Display/Debug-captured and error values through the context (value-bag buffers them by formatting: core::fmt), strings other than the listed ones (concrete texts, not symbolic), "
+               "real OS threads (two harness threads at operation granularity), value-bag's own to_owned/into_shared internals for kinds not exercised",
+    "stubs": ["<f64/i64/u64/i128/u128 as Display/Debug>::fmt -> assert-unreachable in the display/debug-mode harness (thorough tier; the value formatted there is a custom type; even so the harness did not finish in 15 min here: formatting a Value through value-bag's visitor is at the edge of what CBMC handles)",
+              "see prop_C03 (same group): tlctxt:hashmap-core / std-facade (std HashMap -> 4-slot association list, trusted as a finite map; iteration order concrete per harness: forwards / backwards), "
+                        "tlctxt:tls-active (thread_local! ACTIVE -> two per-'thread' heap cells selected by a harness-controlled thread id), tlctxt:verif (read-only probes)",
+                        "TraceId/SpanId::try_from_hex, <u128/u64 as FromValue>::from_value -> assert-unreachable in the typed-id harnesses (c19_x_tl_trace_id_*, c19_x_tl_span_id_*: kept but NOT selected, no verdict in 450 s / 4 GB: typed ids through the context are NOT decided)",
+                        "Kani -Z restrict-vtable; CBMC --max-field-sensitivity-array-size 1024 (symex precision only); recursion caps 0 on value-bag drop glue (unwinding assertions on)"],
     "assumptions": [],
     "level_text": "Bounded model checking over the full value range of each primitive; PARTIAL: structure-preserving serializer paths are outside.",
     "timeout": {"quick": 700, "thorough": 3600},
